@@ -35,6 +35,7 @@ import Ladybug.Proofs.C17Hist
 import Ladybug.Proofs.C17Bars
 import Ladybug.Proofs.C17Rev
 import Ladybug.Proofs.C17Obj
+import Ladybug.Proofs.C17Shape
 import Mathlib.Tactic.Ring
 
 open Cal
@@ -584,6 +585,77 @@ theorem C17_psych_cell_bounds (minT maxT : Int) (hT : minT < maxT) (t rh : Rat)
 example : psyCell (-20) 50 50 100 = (19, 69) ∧ psyCell (-20) 50 (5/2) 95 = (19, 22) ∧
     psyCounts 0 10 [(1/2, 7), (1/2, 3), (11, 50), (10, 100)] ≠ [] := by decide +kernel
 
+/-- Branch theorem of the humidity loop (`for y, rh_cat in enumerate(...): if rh < rh_cat: break` falls
+    through): saturated air (`rh ≥ 100`) is counted in the top row, 95..100 %, never dropped. -/
+theorem C17_psych_saturated_row (minT maxT : Int) (hT : minT < maxT) (t rh : Rat)
+    (hon : onChart minT maxT t = true) (hrh : 100 ≤ rh) : (psyCell minT maxT t rh).1 = 19 := by
+  obtain ⟨h1, _, _, h4, _, _⟩ := C17_psych_cell_bounds minT maxT hT t rh hon
+  rcases h4 with h | h
+  · exfalso
+    have hle : (psyCell minT maxT t rh).1 + 1 ≤ 20 := h1
+    have : ((5 * ((psyCell minT maxT t rh).1 + 1) : Nat) : Rat) ≤ 100 := by
+      have : 5 * ((psyCell minT maxT t rh).1 + 1) ≤ 100 := by omega
+      exact_mod_cast this
+    linarith
+  · exact h
+
+/-- Branch theorem of the temperature loop (falls through for `t = max_temperature`): an hour exactly at
+    the maximum temperature of the chart is counted in the last column. -/
+theorem C17_psych_max_temperature_column (minT maxT : Int) (hT : minT < maxT) (rh : Rat) :
+    (psyCell minT maxT (maxT : Rat) rh).2 = (maxT - minT).toNat - 1 := by
+  have hon : onChart minT maxT (maxT : Rat) = true := by
+    simp only [onChart, decide_eq_true_eq]
+    exact ⟨by exact_mod_cast hT.le, le_refl _⟩
+  obtain ⟨_, h2, _, _, _, h6⟩ := C17_psych_cell_bounds minT maxT hT (maxT : Rat) rh hon
+  rcases h6 with h | h
+  · exfalso
+    have hlt : ((psyCell minT maxT (maxT : Rat) rh).2 : Int) < (maxT - minT).toNat := by exact_mod_cast h2
+    have hn : ((maxT - minT).toNat : Int) = maxT - minT := Int.toNat_of_nonneg (by omega)
+    have : (minT : Rat) + ((psyCell minT maxT (maxT : Rat) rh).2 : Rat) + 1 ≤ (maxT : Rat) := by
+      have : minT + ((psyCell minT maxT (maxT : Rat) rh).2 : Int) + 1 ≤ maxT := by omega
+      exact_mod_cast this
+    linarith
+  · exact h
+
+/-! ### Hand-over shapes and conventions (round 4) -/
+
+/-- **The hand-over order of the data does not matter.**  A collection that is not yet validated is
+    validated by the plot itself (sorted into the chronological order of the period, `handOver`).  For two
+    collections holding the same (date-time, value) pairs in ANY two orders (no date-time twice) the
+    validated data – hence the grid, the kept faces, their cells and the value that colours each face –
+    are the same. -/
+theorem C17_hourly_handover_order_irrelevant {α : Type} (ap : AP) (continuous rev : Bool) (pos : Nat → Nat)
+    (d1 d2 : List (Nat × α)) (hp : d1.Perm d2)
+    (hinj : ∀ a ∈ d1, ∀ b ∈ d1, pos a.1 = pos b.1 → a = b) :
+    hourlyFaces ap continuous rev (handOver pos d1) = hourlyFaces ap continuous rev (handOver pos d2) := by
+  rw [handOver_perm_eq pos d1 d2 hp hinj]
+
+/-- **Validation restores the chronological order**: whatever permutation of chronologically ordered
+    data (distinct date-times) is handed over, the plot works on the chronological list – the list the
+    cell theorems `C17_hourly_cells`, `C17_hourly_cells_reversed` speak about. -/
+theorem C17_hourly_handover_restores_order {α : Type} (pos : Nat → Nat) (d handed : List (Nat × α))
+    (hs : d.Pairwise fun a b => pos a.1 ≤ pos b.1) (hp : handed.Perm d)
+    (hinj : ∀ a ∈ d, ∀ b ∈ d, pos a.1 = pos b.1 → a = b) : handOver pos handed = d := by
+  rw [handOver_perm_eq pos handed d hp
+    (fun a ha b hb => hinj a (hp.subset ha) b (hp.subset hb)), handOver_sorted pos d hs]
+
+/-- **Month number versus column** (monthly and daily bars, month labels).  In a chart whose period starts in
+    month `st` the column `i` shows month `monthOfColumn st i`; the column of a month is its distance from
+    `st` modulo 12 – for a period that wraps the year end NOT `month - st` (January in a Nov..Feb chart is
+    column 2).  The two maps are inverse to each other on the 12 columns / months. -/
+theorem C17_bars_month_column (st : Nat) (hst : 1 ≤ st ∧ st ≤ 12) :
+    (∀ i, i < 12 → 1 ≤ monthOfColumn st i ∧ monthOfColumn st i ≤ 12 ∧
+      columnOfMonth st (monthOfColumn st i) = i) ∧
+    (∀ m, 1 ≤ m → m ≤ 12 → columnOfMonth st m < 12 ∧ monthOfColumn st (columnOfMonth st m) = m) ∧
+    (∀ i, i < 12 → st + i ≤ 12 → monthOfColumn st i = st + i) ∧
+    (∀ i, i < 12 → 12 < st + i → monthOfColumn st i + 12 = st + i) := by
+  simp only [monthOfColumn, columnOfMonth]
+  refine ⟨fun i hi => ?_, fun m h1 h2 => ?_, fun i hi h => ?_, fun i hi h => ?_⟩ <;> omega
+
+example : monthOfColumn 11 2 = 1 ∧ columnOfMonth 11 1 = 2 ∧ columnOfMonth 7 6 = 11 := by decide
+example : handOver (fun m => m) [(3, 'c'), (1, 'a'), (2, 'b')] = [(1, 'a'), (2, 'b'), (3, 'c')] :=
+  C17_hourly_handover_restores_order _ _ _ (by decide) (by decide) (by decide)
+
 /-! ### Objects and operation histories (round 3) -/
 
 end Plot
@@ -659,18 +731,38 @@ theorem C17_cut_prefix (h : List (List Rat)) (fh ic : Option Nat) (c : List (Lis
   split at hc
   · cases hc; exact ⟨rfl, fun i _ _ => List.prefix_refl _⟩
   · split at hc
-    · split at hc
-      · cases hc
-      · cases hc
-        refine ⟨by simp, fun i hi hi' => ?_⟩
-        simp only [List.getElem_map]
-        exact List.take_prefix _ _
+    · cases hc
+      refine ⟨by simp, fun i hi hi' => ?_⟩
+      simp only [List.getElem_map]
+      exact List.take_prefix _ _
     · cases hc; exact ⟨rfl, fun i _ _ => List.prefix_refl _⟩
 
-/-- Known finding C17-windrose-default-hours-cut: 201 hours in one sector, one compass interval and the
-    default `frequency_hours` – the cut is a slice with the float 200.0 and raises TypeError. -/
-theorem C17_windrose_default_hours_cut_counterexample :
-    cutHist [List.replicate 201 1, []] none (some 1) = .error .type := by decide +kernel
+/-- **The cut never raises** (fixes/C17_windrose_default_hours_cut.patch): for every sector table and every
+    combination of assigned / default `frequency_hours` and `frequency_intervals_compass`,
+    `histogram_data` is a table of sector lists. -/
+theorem C17_cut_never_raises (h : List (List Rat)) (fh ic : Option Nat) :
+    ∃ c, cutHist h fh ic = .ok c := by
+  unfold cutHist
+  split
+  · exact ⟨_, rfl⟩
+  · split <;> exact ⟨_, rfl⟩
+
+/-- **What the cut shows**: when the assigned number of compass intervals `k` is below the number the
+    data needs, every sector shows `min (its count) (k * frequency_hours)` samples – the default 200
+    hours when none were assigned – and otherwise the sectors are shown whole. -/
+theorem C17_cut_counts (h : List (List Rat)) (fh : Option Nat) (k : Nat) :
+    cutHist h fh (some k) = .ok (if k < ceilDiv (maxLen h) (fh.getD 200)
+      then h.map (·.take (k * fh.getD 200)) else h) ∧
+    ∀ l : List Rat, (l.take (k * fh.getD 200)).length = min (k * fh.getD 200) l.length := by
+  refine ⟨?_, fun l => List.length_take⟩
+  simp only [cutHist]
+  split <;> rfl
+
+/-- Former finding C17-windrose-default-hours-cut, repaired: 201 hours in one sector, one compass interval
+    and the default `frequency_hours` – the sector is cut to its first 200 samples (the unrepaired slice
+    with the float 200.0 raised TypeError). -/
+theorem C17_windrose_default_hours_cut_fixed :
+    cutHist [List.replicate 201 1, []] none (some 1) = .ok [List.replicate 200 1, []] := by decide +kernel
 
 /-- **Psychrometric chart: no history shows.**  After any list of operations (reads in any order,
     `data_mesh` calls accepted or refused, legend edits) every answer is the answer of a fresh chart of
